@@ -270,15 +270,27 @@ func init() {
 }
 
 func init() {
-	// core.(*path).run: the event loop of a newly created path is not part of a reload step
-	reg("(*"+modPathConst+"/internal/core.path).run", noop)
-}
-
-func init() {
 	// core.emptyTimer: a timer that has fired and been drained; timers are not modelled
 	reg(modPathConst+"/internal/core.emptyTimer", func(m *Machine, fr *frame, a []Value) Value {
 		cell := new(Value)
 		*cell = zero(deref(fr.fn.Signature.Results().At(0).Type()))
 		return cell
 	})
+}
+
+func init() {
+	// timers never fire by themselves: a harness that needs an expiry calls the handler
+	reg("time.NewTimer", func(m *Machine, fr *frame, a []Value) Value {
+		cell := new(Value)
+		*cell = zero(deref(fr.fn.Signature.Results().At(0).Type()))
+		return cell
+	})
+	reg("(*time.Timer).Stop", func(m *Machine, fr *frame, a []Value) Value { return Bool(false) })
+	reg("(*time.Timer).Reset", func(m *Machine, fr *frame, a []Value) Value { return Bool(false) })
+}
+
+func init() {
+	// errordumper: a reporting goroutine that only logs; Stop would wait for it
+	reg("(*"+modPathConst+"/internal/errordumper.Dumper).Start", noop)
+	reg("(*"+modPathConst+"/internal/errordumper.Dumper).Stop", noop)
 }
